@@ -42,6 +42,11 @@ INSTANCES = {
               menu=[dict(tasks=[(1, [], 0, 0), (2, [], 0, 0), (3, [], 0, 0)], climit=0, max_fails=-1),
                     dict(tasks=[(1, [], 0, 3), (2, [1], 0, 3)], climit=0, max_fails=-1)],
               losses=0, cancels=1, fails=0, launch_fails=0, pf_reserve=0, pf_max=1, modes=["any"], tier="thorough"),
+    # a 2-node task among single-node tasks on three workers of two groups: placement, root / non-root loss, cancel, prefill
+    "E": dict(workers=[1, 1, 1], groups=["g1", "g1", "g2"], classes=[1, ("mn", 2)],
+              menu=[dict(tasks=[(1, [], 0, 0), (2, [], 0, 0)], climit=1, max_fails=-1),
+                    dict(tasks=[(1, [], 1, 1)], climit=1, max_fails=-1)],
+              losses=1, cancels=1, fails=1, launch_fails=0, pf_reserve=0, pf_max=1, modes=["eager"], tier="thorough"),
     # simulation only (no exhaustive run): three workers, two classes, three jobs, every kind of fault
     "S1": dict(workers=[2, 1, 1], classes=[1, 2],
                menu=[dict(tasks=[(1, [], 0, 0), (2, [], 1, 0), (3, [1], 0, 0), (4, [1, 2], 0, 1), (5, [], 0, 0)], climit=2, max_fails=-1),
@@ -67,6 +72,7 @@ INVARIANTS = [
     "C08_NoReportAfterAck", "C08_Released", "C08_StopSent", "C08_NoDangling",
     "C13_CountersMatch", "C13_CompletedOnce",
     "C14_AbortAllOnExceed", "C14_ExceededStopped",
+    "C05_MnExclusive", "C05_MnWorkersIdle",
 ]
 EAGER_ONLY = ["C01_OutcomeAtRest", "C02_QuiescentOk"]
 STEP_PROPS = ["C03_NoEarlyStartStep", "C08_NoStartAfterCancelSeenStep", "C06_NoStartAfterGiveBackStep", "C06_StartedIsRealStep"]
@@ -78,18 +84,20 @@ def tla_set(xs):
 
 def instance_tla(name, inst):
     ws = " @@ ".join(f"({i + 1} :> {c * 10000})" for i, c in enumerate(inst["workers"]))
-    cls = ", ".join(f"Cpu({c * 10000})" for c in inst["classes"])
+    groups = inst.get("groups") or ["default"] * len(inst["workers"])
+    gs = " @@ ".join(f'({i + 1} :> "{g}")' for i, g in enumerate(groups))
+    cls = ", ".join(f"Mn({c[1]})" if isinstance(c, tuple) else f"Cpu({c * 10000})" for c in inst["classes"])
     menu = []
     for j, s in enumerate(inst["menu"]):
         ts = ", ".join(f"T({t[0]}, {tla_set(t[1])}, {t[2]}, {t[3]})" for t in s["tasks"])
         menu.append(f"S({j + 1}, <<{ts}>>, {s['climit']}, {s['max_fails']})")
-    return (f"{name}_Workers == {ws}\n{name}_Classes == <<{cls}>>\n{name}_Menu == << " + ",\n             ".join(menu) + " >>\n")
+    return (f"{name}_Workers == {ws}\n{name}_Groups == {gs}\n{name}_Classes == <<{cls}>>\n{name}_Menu == << " + ",\n             ".join(menu) + " >>\n")
 
 
 def cfg_text(name, inst, mode, spec="Spec", extra_inv=()):
     inv = INVARIANTS + (EAGER_ONLY if mode == "eager" else []) + list(extra_inv)
     lines = [f"SPECIFICATION {spec}", "CONSTANTS",
-             f"  WorkerCpus <- {name}_Workers", f"  Menu <- {name}_Menu", f"  Classes <- {name}_Classes",
+             f"  WorkerCpus <- {name}_Workers", f"  WorkerGroup <- {name}_Groups", f"  Menu <- {name}_Menu", f"  Classes <- {name}_Classes",
              f"  MaxLosses = {inst['losses']}", f"  MaxCancels = {inst['cancels']}", f"  MaxFails = {inst['fails']}",
              f"  MaxLaunchFails = {inst['launch_fails']}", f"  PfReserve = {inst['pf_reserve']}", f"  PfMax = {inst['pf_max']}",
              f"  Eager = {'TRUE' if mode == 'eager' else 'FALSE'}", "CHECK_DEADLOCK FALSE"]
@@ -107,6 +115,7 @@ def generate():
            "(* crash limit (-1 never restart, 0 unlimited), job failure limit (-1 none)).                                   *)",
            "EXTENDS HQModel", "",
            "Cpu(a) == <<[n_nodes |-> 0, entries |-> <<[r |-> 0, amount |-> a]>>, min_time |-> 0]>>",
+           "Mn(k) == <<[n_nodes |-> k, entries |-> <<>>, min_time |-> 0]>>",
            "T(id, deps, rq, prio) == [id |-> id, deps |-> deps, rq |-> rq, prio |-> prio]",
            "S(jb, ts, climit, maxFails) == [job |-> jb, tasks |-> ts, climit |-> climit, maxFails |-> maxFails]", ""]
     for name, inst in INSTANCES.items():
@@ -125,12 +134,14 @@ def generate():
 
 def profile_of(name):
     inst = INSTANCES[name]
-    kinds = sorted(set(inst["workers"]))
+    groups = inst.get("groups") or [""] * len(inst["workers"])
+    kinds = sorted(set(zip(inst["workers"], groups)))
     return {
         "name": "model" + name, "journal": True, "manual_flush": False, "reserve": inst["pf_reserve"], "pf_max": inst["pf_max"],
-        "worker_kinds": [{"cpus": c, "gpus": 0, "group": "", "time_limit": 0} for c in kinds],
-        "initial_workers": [kinds.index(c) for c in inst["workers"]], "max_connects": 0,
-        "classes": [{"variants": [{"cpus": c * 10000, "gpus": 0, "min_time": 0}], "n_nodes": 0} for c in inst["classes"]],
+        "worker_kinds": [{"cpus": c, "gpus": 0, "group": g, "time_limit": 0} for c, g in kinds],
+        "initial_workers": [kinds.index(cg) for cg in zip(inst["workers"], groups)], "max_connects": 0,
+        "classes": [({"variants": [{"cpus": 0, "gpus": 0, "min_time": 0}], "n_nodes": c[1]} if isinstance(c, tuple)
+                     else {"variants": [{"cpus": c * 10000, "gpus": 0, "min_time": 0}], "n_nodes": 0}) for c in inst["classes"]],
         "submits": [{"into_open": False, "ids": [], "entries": 0,
                      "graph": [{"id": t[0], "deps": list(t[1]), "class": t[2], "prio": t[3]} for t in s["tasks"]],
                      "class": 0, "prio": 0, "crash_limit": s["climit"], "time_limit": 0, "max_fails": s["max_fails"], "stream": False}
